@@ -155,7 +155,7 @@ def run(ctx):
 		# the 3 x 5 grid
 		for qkind in ('files', 'list', 'sigs'):
 			for rkind in ('files', 'list', 'sigs', 'db', 'square'):
-				for rep in range(ctx.q(5, 25)):
+				for rep in range(ctx.q(10, 30)):
 					if not ctx.time_left(0.9):
 						break
 					q = rng.sample(range(n), rng.randint(1, 4))
